@@ -24,8 +24,13 @@ FUZZ_FLAGS = ("-O1 -g -UNDEBUG -fsanitize=fuzzer-no-link,address,undefined "
               "-fno-sanitize-recover=undefined -fno-omit-frame-pointer " + COMMON_DEFS)
 NATIVE_FLAGS = "-O2 -g " + COMMON_DEFS
 
+# same as sched but with assertions compiled out, like the baseline build:
+# assert(is_locked()) in the lock fast paths performs an acquire load that
+# would hide a missing acquire from the happens-before tracker
+SCHEDN_FLAGS = SCHED_FLAGS.replace("-UNDEBUG", "-DNDEBUG")
 VARIANTS = {
     "sched": dict(cxx="clang++", cc="clang", flags="-Wno-error " + SCHED_FLAGS, extra=[]),
+    "schedn": dict(cxx="clang++", cc="clang", flags="-Wno-error " + SCHEDN_FLAGS, extra=[]),
     "fuzz": dict(cxx="clang++", cc="clang", flags="-Wno-error " + FUZZ_FLAGS, extra=[]),
     "native": dict(cxx="g++", cc="gcc", flags="-Wno-error " + NATIVE_FLAGS,
                    extra=["-DGALOIS_ENABLE_DIST=ON"]),
@@ -104,6 +109,9 @@ def harness_ninja(harnesses):
     L = []
     L.append("rule cxx_sched\n  command = clang++ -std=c++17 %s -march=native %s $defs -MD -MF $out.d -c $in -o $out\n  depfile = $out.d\n  deps = gcc\n"
              % (SCHED_FLAGS, _inc("sched")))
+    L.append("rule cxx_schedn\n  command = clang++ -std=c++17 %s -march=native %s $defs -MD -MF $out.d -c $in -o $out\n  depfile = $out.d\n  deps = gcc\n"
+             % (SCHEDN_FLAGS, _inc("schedn")))
+    L.append("rule link_schedn\n  command = clang++ -g $in %s/libgalois/libgalois_shmem.a -lrapidcheck -lnuma -lpthread -ldl -o $out\n" % variant_dir("schedn"))
     L.append("rule cxx_fuzz\n  command = clang++ -std=c++17 %s -march=native %s $defs -MD -MF $out.d -c $in -o $out\n  depfile = $out.d\n  deps = gcc\n"
              % (FUZZ_FLAGS.replace("fuzzer-no-link", "fuzzer"), _inc("fuzz", DIST_INCS)))
     L.append("rule cxx_native\n  command = g++ -std=c++17 %s -UNDEBUG -march=native %s $defs -MD -MF $out.d -c $in -o $out\n  depfile = $out.d\n  deps = gcc\n"
@@ -125,6 +133,8 @@ def harness_ninja(harnesses):
         libs = " ".join(h.get("libs", []))
         if kind == "sched":
             L.append("build %s: link_sched %s gsched.o | %s/libgalois/libgalois_shmem.a\n" % (h["name"], " ".join(objs), variant_dir("sched")))
+        elif kind == "schedn":
+            L.append("build %s: link_schedn %s gsched.o | %s/libgalois/libgalois_shmem.a\n" % (h["name"], " ".join(objs), variant_dir("schedn")))
         elif kind == "fuzz":
             L.append("build %s: link_fuzz %s | %s/libgalois/libgalois_shmem.a\n  libs = %s\n" % (h["name"], " ".join(objs), variant_dir("fuzz"), libs))
         else:
